@@ -102,7 +102,14 @@ def make_font(rng, widths):
             x0, y0 = rng.randint(-200, 300), rng.randint(-300, 300)
             x1, y1 = x0 + rng.randint(1, 900), y0 + rng.randint(1, 900)
             g["contours"] = [[(Fr(x0), Fr(y0), "line"), (Fr(x1), Fr(y0), "line"), (Fr(x1), Fr(y1), "line"), (Fr(x0), Fr(y1), "line")]]
-        elif k < 0.75 and i > 0 and glyphs[0]["contours"]:
+        elif k < 0.68:
+            # degenerate outlines: a hairline (zero height or zero width box) away from the origin
+            x0, y0 = rng.randint(20, 300), rng.randint(50, 400)
+            if rng.random() < 0.5:
+                g["contours"] = [[(Fr(x0), Fr(y0), "line"), (Fr(x0 + rng.randint(50, 400)), Fr(y0), "line")]]
+            else:
+                g["contours"] = [[(Fr(x0), Fr(y0), "line"), (Fr(x0), Fr(y0 + rng.randint(50, 400)), "line"), (Fr(x0), Fr(y0 + 20), "line")]]
+        elif k < 0.8 and i > 0 and glyphs[0]["contours"]:
             g["components"] = [(glyphs[0]["name"], (Fr(1), Fr(0), Fr(0), Fr(1), Fr(rng.randint(-100, 100)), Fr(rng.randint(-50, 50))))]
         glyphs.append(g)
     if rng.random() < 0.5:
